@@ -66,10 +66,15 @@ SizeRule ==
         LET len == QMul(QI(BoxShape(bmol, Sp, Ex)[d_] - 1), Sp)
             need == QAdd(QSub(MolMax(bmol)[d_], MolMin(bmol)[d_]), QMul(QI(2), Ex))
         IN QLe(QSub(need, Sp), len) /\ QLt(len, need)
+\* the weight of the default scheme (Trapezoid) on the box: V / prod(M_d + 1) with V = spacing^3 * prod(M_d)
+\* (the axes are spacing times an orthonormal frame, also for rotate=True)
+BoxTrapezoidWeight ==
+    QMul(SchemeW("Trapezoid", BoxShape(bmol, Sp, Ex)), QMul(QPow(Sp, 3), QI(NPoints(BoxShape(bmol, Sp, Ex)))))
 \* the lower margin of the midpoint box is >= extension, the upper one >= extension - spacing
 EmitCase ==
     AtCase => PrintT(<<"BOX", [a_ \in 1..Len(bmol) |-> <<bmol[a_].z, bmol[a_].r>>], Sp, Ex,
                        BoxShape(bmol, Sp, Ex), BoxOriginShipped(bmol, Sp, Ex),
                        BoxMargin(bmol, Sp, Ex, BoxOriginShipped(bmol, Sp, Ex)),
-                       Encloses(bmol, Sp, Ex, BoxOriginShipped(bmol, Sp, Ex)), ChargeCentred(bmol)>>)
+                       Encloses(bmol, Sp, Ex, BoxOriginShipped(bmol, Sp, Ex)), ChargeCentred(bmol),
+                       BoxTrapezoidWeight>>)
 =============================================================================
